@@ -201,9 +201,34 @@ impl Subscription {
         root_value: &'a FieldValue<'static>,
     ) {
         for selection in &ctx.item.node.items {
-            if let Selection::Field(field) = &selection.node
-                && let Some(field_def) = self.fields.get(field.node.name.node.as_str())
-            {
+            let field = match &selection.node {
+                Selection::Field(field) => field,
+                Selection::FragmentSpread(fragment_spread) => {
+                    if let Some(fragment) = ctx
+                        .query_env
+                        .fragments
+                        .get(&fragment_spread.node.fragment_name.node)
+                    {
+                        self.collect_streams(
+                            schema,
+                            &ctx.with_selection_set(&fragment.node.selection_set),
+                            streams,
+                            root_value,
+                        );
+                    }
+                    continue;
+                }
+                Selection::InlineFragment(inline_fragment) => {
+                    self.collect_streams(
+                        schema,
+                        &ctx.with_selection_set(&inline_fragment.node.selection_set),
+                        streams,
+                        root_value,
+                    );
+                    continue;
+                }
+            };
+            if let Some(field_def) = self.fields.get(field.node.name.node.as_str()) {
                 let schema = schema.clone();
                 let field_type = field_def.ty.clone();
                 let resolver_fn = field_def.resolver_fn.clone();
